@@ -43,17 +43,21 @@ def dump (st : St) (top : Bytes) (rename : Bool) : String := Id.run do
     out := out ++ [s!"{d},{idn},{toHex e.typ},{par}[{"+".intercalate ps}][{"+".intercalate (es.map ptStr)}]"]
   return joinOr out ";"
 
-/-- texts that goccy/go-yaml v1.11.2 does not carry through a Marshal/Unmarshal round trip (open finding):
-    tabs, carriage returns, line feeds, other control characters, a leading "- " or "? ", and the plain
-    spellings of null, infinity and not-a-number -/
+/-- texts that goccy/go-yaml v1.11.2 does not carry through a Marshal/Unmarshal round trip of the export structure
+    (open finding), as measured on the unchanged code: a carriage return; a tab at the end of the text (trailing
+    blanks aside); a BEL next to a leading or trailing blank; "-" or a leading "- " / "? " followed by something; and the
+    plain spellings of null, infinity and not-a-number. (Line feeds, other control characters, U+0085 / U+2028 /
+    U+2029 and tabs inside a text DO survive and are not part of the class.) -/
 def yamlHostile (p : Store.Point) : Bool :=
-  let s := String.mk (p.text.map (fun c => Char.ofNat c.toNat))
-  p.text.any (fun b => b < 32 || b == 127) ||
-  -- U+0085, U+2028, U+2029 in UTF-8
-  (s.splitOn "\u0085").length > 1 || (s.splitOn "\u2028").length > 1 || (s.splitOn "\u2029").length > 1 ||
-  s == "-" || s.startsWith "- " || s == "?" || s.startsWith "? " ||
+  let t := p.text
+  let s := String.mk (t.map (fun c => Char.ofNat c.toNat))
+  let noTrail := (t.reverse.dropWhile (· == 32)).reverse
+  t.any (· == 13) ||
+  noTrail.getLast? == some 9 ||
+  (t.any (· == 7) && (t.head? == some 32 || t.getLast? == some 32)) ||
+  s == "-" || (s.startsWith "- " && s.length > 2) || (s.startsWith "? " && s.length > 2) ||
   ["null", "Null", "NULL", "~"].contains s ||
-  [".inf", ".Inf", ".INF", "+.inf", "+.Inf", "+.INF", "-.inf", "-.Inf", "-.INF", ".nan", ".NaN", ".NAN"].contains s
+  [".inf", ".Inf", ".INF", "-.inf", "-.Inf", "-.INF", ".nan", ".NaN", ".NAN"].contains s
 
 def handle (args : List String) (impl : String) : Verdict :=
   match args with
